@@ -112,7 +112,7 @@ fn main() {
         .ok()
         .and_then(|s| s.parse::<u64>().ok())
         .unwrap_or(if in_process_only { 150 } else { 900 });
-    engine::start_watchdog(&ctx.id, std::time::Duration::from_secs(case_limit));
+    engine::start_watchdog(&ctx.id, std::time::Duration::from_secs(case_limit), ctx.seed, ctx.tier);
 
     let code = if let Some(path) = replay {
         props::replay(&ctx, &path)
